@@ -62,20 +62,20 @@ def zeroSlab : Slab := fun _ _ _ => 0
 def bumpS (y : Nat) (i j : Int) (s : Slab) : Slab :=
   fun y' i' j' => if y' = y ∧ i' = i ∧ j' = j then s y' i' j' + 1 else s y' i' j'
 
-/-- the body of one `prange` iteration `a_row = x`: the two inner loops -/
+/-- the cells `(b_row, i, j)` of slab `x` touched by one `prange` iteration `a_row = x`, in the
+order of the two inner loops (`i = a[t, x]`, `j = b[t, y]`) -/
+def writesOf (a b : Arr) (x : Nat) : List (Nat × Int × Int) :=
+  (List.range b.F).flatMap fun y => (List.range a.T).map fun t => (y, a.get t x, b.get t y)
+
+/-- the body of one `prange` iteration `a_row = x`: one `+= 1` per touched cell -/
 def program (a b : Arr) (x : Nat) : List (Slab → Slab) :=
-  (List.range b.F).flatMap fun y => (List.range a.T).map fun t => bumpS y (a.get t x) (b.get t y)
+  (writesOf a b x).map fun w => bumpS w.1 w.2.1 w.2.2
 
 /-- the per-cell programs of the `prange`: cell `x` = slab `jc[x, …]`, one program per `a_row` -/
 def progs (a b : Arr) : List (List (Slab → Slab)) := (List.range a.F).map (program a b)
 
 /-- the source order of the triple loop (`a_row` outermost) -/
 def seqExec (a b : Arr) : Sched.Exec Slab := Sched.seqExec (progs a b)
-
-/-- the cells written by the triple loop, as `(a_row, b_row, i, j)` -/
-def writes (a b : Arr) : List (Nat × Nat × Int × Int) :=
-  (List.range a.F).flatMap fun x => (List.range b.F).flatMap fun y =>
-    (List.range a.T).map fun t => (x, y, a.get t x, b.get t y)
 
 /-- the `assert`s of `matrix_bincount2d`, in source order -/
 def guard (a b : Arr) (nA nB : Int) : Except Err Unit := do
@@ -242,7 +242,7 @@ def entropyTerms (p : List Rat) (normalize : Bool) : Except Err (List Term) := d
 inductive KL
   | inf
   | terms (l : List Term)
-  deriving Repr
+  deriving Repr, DecidableEq
 
 /-- one distribution pair of `kl_divergence` (natural-log terms; the caller divides by `log base`) -/
 def klTerms (P Q : List Rat) : Except Err KL := do
